@@ -58,9 +58,9 @@ AccWhys(e, o) ==
 WhyOrder == <<CannotRead, "tables", "pairs", "type of an undefined name", "columns", "size", "type", "basetype", "isarray", "isenum",
               "array_length", "char_length", "dtype">>
 FirstWhy(W) == WhyOrder[CHOOSE k \in 1..Len(WhyOrder) : WhyOrder[k] \in W /\ \A j \in 1..(k - 1) : WhyOrder[j] \notin W]
-(* What each still-known deviation produces.  The fixed D-X08-1 / D-X08-2 explain nothing: a text with a ';' in a typedef *)
-(* comment must now be read like any other.  The smallest set of deviations present in the text that accounts for every   *)
-(* differing part is named (its first id leads the verdict).                                                               *)
+(* What each named deviation produces.  The verdict names the deviation present in the text that accounts for EVERY      *)
+(* differing part; whether that excuses the record is decided by the harness from known_findings.json (only status        *)
+(* "known", today D-X08-3; D-X08-4 / -5 are fixed and only label a regression; D-X08-1 / -2 are never named here).        *)
 ExplBrace == {"tables", CannotRead}                                                   \* D-X08-3: the structure is lost
 ExplCharName == {"isarray", "array_length", "char_length", "dtype", CannotRead}       \* D-X08-4
 ExplEmptyAuto == {"dtype", CannotRead}                                                \* D-X08-5
